@@ -335,11 +335,12 @@ def trial_dispatch(ctx):
     br = _trial_branches(rd)
     # roles of the locals by their position in the returned tuple
     # (ham_data, ham, prop, trial, wave_data, sampler, observable, options, MPI)
-    rets = [st for st in rd.node.body if isinstance(st, ast.Return)]
-    if not rets or not isinstance(rets[-1].value, ast.Tuple) or len(rets[-1].value.elts) != 9 or not all(
-            isinstance(e_, ast.Name) for e_ in rets[-1].value.elts):
+    from ..model import returned_values
+    rets = [v_ for _, v_ in returned_values(rd.node, top_level_only=True)]
+    if not rets or not isinstance(rets[-1], ast.Tuple) or len(rets[-1].elts) != 9 or not all(
+            isinstance(e_, ast.Name) for e_ in rets[-1].elts):
         raise AnalysisError("_prep_afqmc does not return the 9-tuple (ham_data, ham, prop, trial, wave_data, ...)")
-    rnames = [e_.id for e_ in rets[-1].value.elts]
+    rnames = [e_.id for e_ in rets[-1].elts]
     prop_name, trial_name, wd_name = rnames[2], rnames[3], rnames[4]
     documented = ["rhf", "uhf", "noci", "cisd", "ucisd"]
     methods = ["_calc_overlap", "_calc_overlap_restricted", "_calc_force_bias", "_calc_force_bias_restricted",
@@ -487,18 +488,19 @@ def ene_err(ctx):
                 (dotted(nd.value.func) or "").endswith("loadtxt") and nd.value.args and \
                 _str_const(nd.value.args[0]) == "ene_err.txt":
             lv = nd.targets[0].id
-    rets = [nd for nd in ast.walk(ra.node) if isinstance(nd, ast.Return)]
+    from ..model import returned_values
+    rets = [v_ for _, v_ in returned_values(ra.node)]
     r_idx = None
-    if rets and isinstance(rets[-1].value, ast.Tuple):
+    if rets and isinstance(rets[-1], ast.Tuple):
         r_idx = [e_.slice.value if isinstance(e_, ast.Subscript) and isinstance(e_.value, ast.Name) and e_.value.id == lv
-                 and isinstance(e_.slice, ast.Constant) else None for e_ in rets[-1].value.elts]
+                 and isinstance(e_.slice, ast.Constant) else None for e_ in rets[-1].elts]
     ctx.ob("KEYS-2", "ene_err.txt: written as (energy, error) and read back in that order",
            pair is not None and w == pair and lv is not None and r_idx == [0, 1],
            f"writer stores {w} (driver results {pair}); reader returns entries {r_idx}", ra)
     drv = p.func("driver.afqmc")
-    rets = [nd for nd in drv.node.body if isinstance(nd, ast.Return)]
-    rn = [e_.id if isinstance(e_, ast.Name) else None for e_ in rets[-1].value.elts] if rets and isinstance(
-        rets[-1].value, ast.Tuple) else None
+    rets = [v_ for _, v_ in returned_values(drv.node, top_level_only=True)]
+    rn = [e_.id if isinstance(e_, ast.Name) else None for e_ in rets[-1].elts] if rets and isinstance(
+        rets[-1], ast.Tuple) else None
     from_ba = False
     if rn and len(rn) == 2 and None not in rn:
         for nd in ast.walk(drv.node):
